@@ -195,6 +195,12 @@ CLASSIFIERS = {
     "arrayassign_nonunit_stride":
         lambda c: _is(c, "arrayassign2loops") and
         any(st != "1" for st in c.get("facts", {}).get("range_steps", [])),
+    # SUM(d, mask=d(5:0:-1,:) > 1.0), SUM(a(6:1:-1)): strides of the
+    # sections of the reduced array / mask are ignored by the generated loops
+    "reduction2loop_nonunit_stride":
+        lambda c: c.get("trans") in REDUCTIONS and
+        c.get("bucket", "").endswith(":diff") and
+        any(st != "1" for st in c.get("facts", {}).get("range_steps", [])),
     # c(2,m) = SUM(c(:5,:2)): the reduction is the whole right-hand side and
     # the LHS element is part of the reduced array (the final copy from the
     # temporary is never emitted)
